@@ -32,7 +32,12 @@ use std::sync::mpsc;
 use std::time::Duration;
 use yvcommon::util::{opt, opt_usize, seed};
 
-const STALL: Duration = Duration::from_secs(12);
+/// A worker that prints nothing for this long is considered hung on the
+/// program it announced (simulated runs take well under a millisecond of CPU;
+/// the margin is for a heavily loaded machine).
+const STALL_SIM: Duration = Duration::from_secs(20);
+/// Real-OS runs have their own per-run timeout (60 s) inside the worker.
+const STALL_REAL: Duration = Duration::from_secs(200);
 
 fn mix(a: u64, b: u64) -> u64 {
     let mut x = a.wrapping_mul(0x9E37_79B9_7F4A_7C15).wrapping_add(b).wrapping_add(0x632B_E59B_D9B4_E019);
@@ -53,6 +58,11 @@ fn tr_of(v: &Value) -> Vec<(i64, i64)> {
 }
 
 fn execute(mode: Mode, r: &render::Rendered) -> Obs {
+    if mode == Mode::Real {
+        if let Ok(sh) = std::env::var("YV_OTHER_SHELL") {
+            return exec::run_other_shell(&sh, r);
+        }
+    }
     match mode {
         Mode::Sim => exec::run_sim(r),
         Mode::Real => exec::run_real_shell(r),
@@ -216,6 +226,7 @@ fn worker_random(args: &[String]) -> i32 {
 /// whose execution hung ("timeout") or killed the worker ("crash").
 fn supervise(worker: &str, args: &[String], jobs: usize, sink: &mut dyn FnMut(Value)) -> Result<(), String> {
     let exe = std::env::current_exe().map_err(|e| e.to_string())?;
+    let stall = if opt(args, "--mode") == Some("real") { STALL_REAL } else { STALL_SIM };
     let (tx, rx) = mpsc::channel::<Result<Value, String>>();
     let mut handles = vec![];
     for part in 0..jobs {
@@ -254,7 +265,7 @@ fn supervise(worker: &str, args: &[String], jobs: usize, sink: &mut dyn FnMut(Va
                 let mut pending: Option<(usize, Value)> = None;
                 let mut lost: Option<&'static str> = None;
                 loop {
-                    match lrx.recv_timeout(STALL) {
+                    match lrx.recv_timeout(stall) {
                         Ok(line) => {
                             if let Some(rest) = line.strip_prefix("S ") {
                                 let mut it = rest.splitn(2, ' ');
